@@ -329,6 +329,13 @@ theorem unit_sum_lookalike (r : List (List Ty)) (n : Nat) :
 example : rowEq [.sum [[.unitSum 2], []]] [.unitSum 2] = false ∧ rowEq [.unitSum 2] [.sum [[.unitSum 2], []]] = false := by
   simp [rowEq, Ty.pyEqRow, Ty.pyEq, emptyRows]
 
+/-- A definition-backed extension type and an opaque type are never equal rows for the builders, in either order and
+    whatever their names and arguments (the comparison is on representations: a resolved `int<5>` against an unresolved
+    `int<6>` — seeded change C13-15 took such a pair as equal without looking at the arguments). -/
+theorem ext_never_equals_opaque (d : TypeDefRef) (a a' : List TypeArg) (i : String) (b : Bound) (e : String) :
+    rowEq [.extType d a] [.opaque i b a' e] = false ∧ rowEq [.opaque i b a' e] [.extType d a] = false := by
+  constructor <;> simp [rowEq, Ty.pyEqRow, Ty.pyEq]
+
 /-- **Conditional cases, either order**: with the outputs `prev` established, a case with outputs `outs` is refused
     exactly when the two rows differ — stated with the rows in the other order than the code compares them. -/
 theorem case_output_mismatch_iff_symm (st : BuildState) (ci : Nat) (c : BRec) (s : St) (sm : SumTy)
